@@ -26,7 +26,7 @@ def runSession (parse : Str → Option Str) (boundKey : Bool) :
   | _, _, _ => none
 
 /-- `(substitute SQL VALS)`; `(bind SQL PARAMS)`; `(scan T)`; `(scanq T)`; `(lexstr T)`;
-`(safe SQL VALS)` → 1/0 (`bindSafe`); `(session KEY (bad T…) (call …)…)` with KEY = unbound | bound -/
+`(count SQL)` → number of placeholders; `(session KEY (bad T…) (call …)…)` with KEY = unbound | bound -/
 def handle : List Sx → Sx
   | [.atom "substitute", sql, vs] =>
     match decChars sql, decPVals vs with
@@ -51,10 +51,10 @@ def handle : List Sx → Sx
     match decChars sql, decPVals vs with
     | some s, some v => encScan ((scanQ s).map (fill · v))
     | _, _ => .atom "bad-request"
-  | [.atom "safe", sql, vs] =>
-    match decChars sql, decPVals vs with
-    | some s, some v => sxBool (bindSafe .norm s v)
-    | _, _ => .atom "bad-request"
+  | [.atom "count", sql] =>
+    match decChars sql with
+    | some s => sxNat (countQ s)
+    | none => .atom "bad-request"
   | [.atom "lexstr", t] =>
     match decChars t with
     | some cs =>
